@@ -26,6 +26,9 @@ func TestMain(m *testing.M) { evid.Main("C14", m) }
 type Branch struct {
 	Name     string `json:"name"`
 	Existing bool   `json:"existing"` // the branch already has a head before the transaction
+	// ViaFile (CLI leg): the data is staged from the branch's configured file (`wrgl commit BRANCH
+	// MESSAGE --txid`, branch.file set) instead of a CSV path on the command line
+	ViaFile bool `json:"via_file,omitempty"`
 }
 
 type Case struct {
